@@ -275,6 +275,7 @@ func vfRunLFUCase(c *vfLFUCase) (st vfLFUStats, sig, msg string) {
 				if willReset {
 					counters = snapshotCounters()
 				}
+				doorHad := p.door.Has(op.H) // with the first-access mark already set, this access increments the counters
 				p.Increment(op.H)
 				total++
 				if willReset != (p.incrs == 0) {
@@ -288,8 +289,7 @@ func vfRunLFUCase(c *vfLFUCase) (st vfLFUStats, sig, msg string) {
 					total = 0
 					// the increment was applied first, then every counter halved, marks forgotten
 					ref := &vfRefSketch{seed: p.freq.seed, mask: p.freq.mask, rows: counters}
-					// was the doorkeeper bit set before? unknown from outside -> accept either pre-image:
-					// each counter is old>>1 or (old+1)>>1 on the four cells of op.H, old>>1 elsewhere.
+					// each counter is old>>1, except the cells of op.H when its first-access mark was already set: (old+1)>>1
 					cells := map[[2]int]bool{}
 					for r := range ref.rows {
 						cells[[2]int{r, int((op.H ^ ref.seed[r]) & ref.mask)}] = true
@@ -298,16 +298,17 @@ func vfRunLFUCase(c *vfLFUCase) (st vfLFUStats, sig, msg string) {
 					for r := range now {
 						for j := range now[r] {
 							old := counters[r][j]
-							ok := now[r][j] == old>>1
-							if !ok && cells[[2]int{r, j}] {
+							want := old >> 1
+							if cells[[2]int{r, j}] && doorHad {
+								// the access is recorded first (saturating), then the reset halves
 								inc := old
 								if inc < 15 {
 									inc++
 								}
-								ok = now[r][j] == inc>>1
+								want = inc >> 1
 							}
-							if !ok {
-								return st, "C18/lfu/reset-not-halving", fmt.Sprintf("aging reset: row %d counter %d was %d, now %d", r, j, old, now[r][j])
+							if now[r][j] != want {
+								return st, "C18/lfu/reset-not-halving", fmt.Sprintf("aging reset triggered by an access of %#x (mark set before: %v): row %d counter %d was %d, now %d, want %d", op.H, doorHad, r, j, old, now[r][j], want)
 							}
 						}
 					}
